@@ -302,6 +302,51 @@ m("c18-const-input-scribble", "C18", POLYFILL,
     return iterErr;""",
   "polygonToCellsExperimental: caller's const polygon modified for a few dozen instructions at the END of the call and restored (visible only to a concurrent reader of the same polygon inside that window)", None)
 
+m("c18-mutex-protected-cache", "C18", MATHX,
+  """int64_t _ipow(int64_t base, int64_t exp) {
+    int64_t result = 1;""",
+  """#include <pthread.h>
+static pthread_mutex_t ipowLock = PTHREAD_MUTEX_INITIALIZER;
+static int64_t ipowBase, ipowExp, ipowResult;
+int64_t _ipow(int64_t base, int64_t exp) {
+    pthread_mutex_lock(&ipowLock);
+    if (exp > 0 && ipowBase == base && ipowExp == exp) {
+        int64_t r = ipowResult;
+        pthread_mutex_unlock(&ipowLock);
+        return r;
+    }
+    int64_t base0 = base, exp0 = exp;
+    int64_t result = 1;""",
+  "_ipow: memo cache protected by a static mutex (race-free, but mutable global state; must not deadlock the simulator)", "I1-static-write")
+M[-1]["also"] = [(MATHX, """        base *= base;
+    }
+
+    return result;""", """        base *= base;
+    }
+    ipowBase = base0;
+    ipowExp = exp0;
+    ipowResult = result;
+    pthread_mutex_unlock(&ipowLock);
+
+    return result;""")]
+
+m("c18-random-start-offset", "C18", H3INDEX,
+  """H3Error H3_EXPORT(cellToChildren)(H3Index h, int childRes, H3Index *children) {
+    int64_t i = 0;""",
+  """H3Error H3_EXPORT(cellToChildren)(H3Index h, int childRes, H3Index *children) {
+    int64_t i = 0;
+    int64_t total = 0;
+    if (H3_EXPORT(cellToChildrenSize)(h, childRes, &total) == E_SUCCESS && total > 1) {
+        // "load balancing": start at a random child and wrap around
+        int64_t start = rand() % total;
+        for (IterCellsChildren iter = iterInitParent(h, childRes); iter.h; iterStepChild(&iter)) {
+            children[(i + start) % total] = iter.h;
+            i++;
+        }
+        return E_SUCCESS;
+    }""",
+  "cellToChildren: output order depends on the process-wide rand() stream", "I6-ambient-state")
+
 # ------------------------------------------------------------------ C16 ----
 m("c16-skip-last-polygon", "C16", LINKED,
   """        if (skip) {
